@@ -23,6 +23,10 @@ def cells_for(prop, tier, seed):
     if prop == "C15":
         cs = hydro.eos_cells(tier, seed, template_only=True, nv=nv)
         cs += [c for c in hydro.eos_cells(tier, seed, nv=nv) if c["eos"] == "bag"]
+        # corner of the template parameter space: transition strength just below the template solver's runaway bound
+        # (its LTE velocity must still be the root the general solver finds), unequal sound speeds, Tn away from 1
+        for al, psi, cs2, cb2, Tn in ((0.33, 0.7, 0.30, 0.25, 10.0), (0.30, 0.7, 0.30, 0.25, 0.1)):
+            cs.append(dict(eos="template", Tn=Tn, par=dict(alN=al, psiN=psi, cs2=cs2, cb2=cb2, scale=3.7), tag=f"corner_al{al}_psi{psi}_cs{cs2:.3f}_cb{cb2:.3f}_Tn{Tn}", nv=nv))
         for c in cs:
             c.update(template=True, oracle=True)
         return cs
